@@ -46,7 +46,7 @@ STRESS_SCENARIOS = {
     "C03": (["askjoin", "hammer", "idlewin", "blocking", "cancel", "backlog", "replyclose", "mix", "afterend", "queuedask", "stale"], 6, ["askjoin", "hammer", "idlewin", "blocking", "cancel", "backlog", "replyclose", "mix", "afterend", "queuedask", "stale"], 180),
     "C04": (["backlog", "refs", "hookpanic", "idlewin"], 0, ["backlog", "refs", "hookpanic", "hammer", "mix", "idlewin"], 60),
     "C05": (["cancel", "backlog", "idlewin", "refs", "stale"], 0, ["cancel", "backlog", "idlewin", "refs", "hammer", "mix", "stale"], 60),
-    "C06": (["refs", "queuedask"], 0, ["refs", "hammer", "mix", "queuedask"], 60),
+    "C06": (["refs", "queuedask", "killdrop"], 0, ["refs", "hammer", "mix", "queuedask", "killdrop"], 60),
     "C07": (["refs", "cancel", "backlog", "blocking", "selfchain", "stale"], 0, ["refs", "cancel", "backlog", "blocking", "selfchain", "hammer", "mix", "stale"], 60),
     "C08": (["idlewin", "backlog", "cancel"], 0, ["idlewin", "backlog", "cancel"], 0),
     "C09": (["blocking", "cancel", "backlog", "late", "stale"], 0, ["blocking", "cancel", "backlog", "late", "stale"], 0),
